@@ -311,6 +311,8 @@ struct AbfCase {
   int restart_walker;   // -1 none; else walker restarted at the first exchange boundary (after step freq)
   std::vector<std::vector<int>> word;  // per walker per step: letter = bin*2 + force
   int bound;            // max deviations from the default order
+  int rstep = 0;        // exchange step after which all walkers stop and restart (0 = the first one)
+  int stop_step() const { return rstep ? rstep : freq; }
 };
 
 struct Point { int n_enabled, chosen; };
@@ -345,7 +347,7 @@ static AbfOutcome abf_execute(AbfCase const &c, std::vector<int> const &prefix)
   std::vector<WalkerSpec> specs(c.n);
   for (int i = 0; i < c.n; i++) { specs[i].conf = abf_conf(c.freq); }
   ctl.spawn(specs);
-  for (int i = 0; i < c.n; i++) { ctl.w[i].next_step = 0; ctl.w[i].last_step = c.restart_walker >= 0 ? c.freq : c.L - 1; }
+  for (int i = 0; i < c.n; i++) { ctl.w[i].next_step = 0; ctl.w[i].last_step = c.restart_walker >= 0 ? c.stop_step() : c.L - 1; }
   std::vector<bool> restarted(c.n, false);
   size_t pos = 0;
   long guard = 0;
@@ -372,7 +374,7 @@ static AbfOutcome abf_execute(AbfCase const &c, std::vector<int> const &prefix)
             else sp.state = st.substr(0, a) + st.substr(b);
           }
           ctl.spawn_one(i, sp);
-          ctl.w[i].next_step = c.freq;  // repeat the stop step
+          ctl.w[i].next_step = c.stop_step();  // repeat the stop step
           ctl.w[i].last_step = c.L - 1;
           restarted[i] = true;
         }
@@ -629,6 +631,17 @@ int main(int argc, char **argv)
       abf.push_back({3, thorough ? 5 : 4, 2, rv != 0, -1, w3, thorough ? 2 : 1});
       if (rv == 0) abf.push_back({2, 5, 2, false, 3, w2, 0});
     }
+    std::vector<std::vector<int>> w4 = {{0, 1, 2, 3, 0, 2, 1}, {3, 2, 0, 1, 1, 0, 3}, {1, 3, 3, 0, 2, 1, 0}, {2, 0, 1, 2, 3, 3, 1}};
+    for (int L = 3; L <= 7; L++) abf.push_back({2, L, 2, (L % 2) != 0, -1, w4, thorough ? 2 : 1});  // final state at every phase of the exchange cycle
+    abf.push_back({2, 4, 1, false, -1, w2, 99});                      // exchange at every step
+    abf.push_back({2, 4, 1, true, 1, w2, 2, 2});                      // ... restart after the second exchange
+    abf.push_back({2, 7, 3, false, -1, w4, thorough ? 3 : 2});        // sharedFreq 3, two exchanges
+    abf.push_back({2, 7, 2, true, 2, w4, thorough ? 2 : 1, 4});       // restart after the second of three exchanges
+    if (thorough) {
+      abf.push_back({4, 4, 2, false, -1, w4, 1});                     // four walkers
+      abf.push_back({4, 4, 2, true, 1, w4, 1});
+      abf.push_back({3, 5, 2, false, 1, w3, 1});
+    }
     if (thorough) {
       // all sample words of 2 walkers x 3 steps under the default order
       for (int a = 0; a < 64; a++)
@@ -683,7 +696,7 @@ int main(int argc, char **argv)
       if (j < abf.size()) {
         AbfCase const &c = abf[j];
         std::string cj = "{\"part\":\"shared ABF\",\"walkers\":" + std::to_string(c.n) + ",\"steps\":" + std::to_string(c.L) + ",\"sharedFreq\":" + std::to_string(c.freq) +
-                         ",\"send\":\"" + (c.rendezvous ? "rendezvous" : "buffered") + "\",\"restart\":\"" + (c.restart_walker < 0 ? "none" : (c.restart_walker == 2 ? "all walkers, binary state" : (c.restart_walker == 3 ? "all walkers, text state without last-exchange record" : "all walkers, text state"))) + "\",\"deviation_bound\":" + std::to_string(c.bound) + "}";
+                         ",\"send\":\"" + (c.rendezvous ? "rendezvous" : "buffered") + "\",\"restart\":\"" + (c.restart_walker < 0 ? "none" : (c.restart_walker == 2 ? "all walkers, binary state" : (c.restart_walker == 3 ? "all walkers, text state without last-exchange record" : "all walkers, text state"))) + "\",\"restart_after_step\":" + std::to_string(c.restart_walker >= 0 ? c.stop_step() : -1) + ",\"deviation_bound\":" + std::to_string(c.bound) + "}";
         bool stop = false;
         long nexec = 0;
         std::set<uint64_t> outcomes;
